@@ -6,4 +6,6 @@ export GOFLAGS=-mod=mod GOPROXY=off
 mkdir -p bin evidence replays
 cp -f /repo/go.sum harness/go.sum 2>/dev/null || true
 (cd harness && go test -c -vet=off -o ../bin/harness.test .)
+# pre-build the injected C29 test binary of the 08-wasm module (cold build ~70 s)
+overlay/c29/run.sh quick >/dev/null 2>&1 || true
 echo "setup ok"
